@@ -8,6 +8,8 @@
 * Lab3: solverlab.Lab whose con() builds those objects ('kind/pure', 'kind/inplace', 'symbolic/pure',
   'symbolic/inplace'; plain 'symbolic' is the generated function as is).
 * run_history: mc.graph.run_history with the laboratory class as a parameter.
+* 'window' constraint, 'low' box, Settings3: the alphabet of the 'ranges set twice' family (a box that is replaced
+  by another one in the same mode; the constraint fits the final box and leaves the first one).
 """
 import traceback
 import numpy as np
@@ -19,7 +21,32 @@ def _floats(x):
     return [float(v) for v in x]
 
 
+WINDOW = (0.5, 1.5)      # 'window': every coordinate clamped into this interval (inside 'unit', outside 'low' and 'neg')
+
+
+def box_of3(cfgbox, dim):
+    """solverlab.box_of plus the boxes of the 'ranges set twice' family"""
+    if cfgbox == 'low':          # a proper sub-box of 'unit' = [-1,2]^d
+        return [-1.0] * dim, [0.25] * dim
+    return solverlab.box_of(cfgbox, dim)
+
+
+class Settings3(solverlab.Settings):
+    def limits(self):
+        b = box_of3(self.box, self.dim)
+        if b is None:
+            return None
+        return [(-1e3 if v is None else v) for v in b[0]], [(1e3 if v is None else v) for v in b[1]]
+
+
 class Con3(Con):
+    def _map(self, x):
+        if self.kind == 'window':
+            for i in range(len(x)):
+                x[i] = min(max(x[i], WINDOW[0]), WINDOW[1])
+            return x
+        return Con._map(self, x)
+
     def __init__(self, kind, inplace=False):
         Con.__init__(self, kind, inplace)
         self.changed = 0      # applications that returned something different from their input
@@ -72,6 +99,15 @@ def split(sym):
 
 
 class Lab3(Lab):
+    def set_ranges(self, s, box, tight=None, clip=None):
+        if box is False:
+            return Lab.set_ranges(self, s, box, tight, clip)
+        lo, hi = box_of3(box, self.dim)
+        kw = {}
+        if tight is not None: kw['tight'] = tight
+        if clip is not None: kw['clip'] = clip
+        s.SetStrictRanges(list(lo), list(hi), **kw)
+
     def con(self, sym):
         if sym is None:
             return None
